@@ -150,7 +150,7 @@ pub fn strategy(wt: u64, tier: Tier) -> impl Strategy<Value = Case> {
 }
 
 pub fn subchecks(tier: Tier) -> Vec<SubCheck> {
-    let cases = tier.pick(20_000, 400_000);
+    let cases = tier.pick(40_000, 600_000);
     let wt_seed = move || -> u64 {
         std::env::var("VERIF_SEED").ok().and_then(|s| s.trim().parse::<i128>().ok()).map(|v| v as u64).unwrap_or(0) ^ 0xC01
     };
